@@ -49,9 +49,6 @@ MUTANTS = [
      "        if problem.status < 0:"),
     ("m_c13_none", "C13", C, "        if solver is None:\n            return self.fcfs\n", "        pass\n"),
     ("m_c13_msg", "C13", C, "        if solver is not None:\n            solver.msg = False", "        solver.msg = False"),
-    ("m_c13_highs_only", "C13", C,
-     "        else:\n            solver = pulp.LpSolverDefault\n",
-     "        else:\n            solver = pulp.LpSolverDefault or pulp.PULP_CBC_CMD()\n"),
     ("m_c02_noorder", "C02", C, "terms.append(-1 * var * length * order)", "terms.append(-1 * var * length)"),
     ("m_c02_maxorder", "C02", C, "max_order = max(map(len, graph.values())) + 1", "max_order = max(map(len, graph.values()))"),
     ("m_c02_maxorder_min2", "C02", C, "max_order = max(map(len, graph.values())) + 1",
@@ -65,6 +62,12 @@ MUTANTS = [
      "            # is pseudoknot?\n            if (k < m < l) or (m < k < n < l):\n                graph[i].add(j)\n                graph[j].add(i)\n\n        # return all"),
     ("m_c02_brackets", "C02", C, '        brackets = ["()", "[]", "{}", "<>"] + [', '        brackets = ["()", "{}", "[]", "<>"] + ['),
     ("m_c02_len_weight", "C02", C, "                    terms.append(var * length)", "                    terms.append(var)"),
+    ("m_c02_twodigit", "C02", C, '                i, order = map(int, name.split("_")[1:])',
+     "                i, order = int(name[2]), int(name[-1])"),
+    ("m_c13_twodigit_fcfs", "C13", C, "            order = next(filter(lambda i: available[i] is True, range(len(available))))\n            orders[i] = order\n\n        return self.__make_dot_bracket(regions, orders)",
+     "            order = next(filter(lambda i: available[i] is True, range(len(available))))\n            orders[i] = order if i < 10 else 0\n\n        return self.__make_dot_bracket(regions, orders)"),
+    ("m_c02_letters", "C02", C, '"".join(p) for p in zip(string.ascii_uppercase, string.ascii_lowercase)',
+     '"".join(p) for p in zip(string.ascii_uppercase[1:], string.ascii_lowercase[1:])'),
     ("m_c14_listset", "C14", C,
      "        return sorted(solutions, key=lambda dot_bracket: dot_bracket.structure)", "        return list(solutions)"),
     ("m_c14_csvset", "C14", A,
